@@ -32,6 +32,7 @@ def scenarios(quick):
               (T.balance2_watch(maxseq=3), 'SpecPrompt', 6 if quick else 80, 250),
               (T.balance2_multi(maxseq=3), 'Spec', 8 if quick else 100, 300),
               (T.balance2_relay(maxseq=4), 'SpecPrompt', 6 if quick else 80, 300),
+              (T.blocking(T.balance2(maxseq=3)), 'SpecPrompt', 6 if quick else 80, 250),
               (T.with_exit(T.balance3(maxseq=4), 'W3', 1, 'clean', prop=(), obey=()), 'SpecPrompt', 6 if quick else 80, 350)],
         rand=[(T.balance2(maxseq=6), 8 if quick else 150, 1200, 0.03),
               (slow1b, 8 if quick else 150, 1500, 0.03),
